@@ -35,9 +35,15 @@ def systems(rng, n):
                 A[i][(i + 1) % dim] = rng.choice([-1.0, 1.0]) * rng.randint(4, 8) / 4.0      # cyclic permutation matrix, scaled
         elif dim >= 2 and shape < 0.45:
             A = [[(1.0 if i == j else (rng.randint(4, 16) / 4.0 if j > i else 0.0)) for j in range(dim)] for i in range(dim)]   # upper shear
-        scale = rng.choice([0.0, 1.0, 1.0, 1000.0])
+        small = dim >= 2 and rng.random() < 0.2
+        if small:
+            # a well-conditioned matrix of small overall size: its determinant scales like size^dim and says nothing
+            # about solvability (affine systems only: with so small a linear part the eps-terms would dominate)
+            sz = rng.choice([0.1, 0.03, 0.3])
+            A = [[sz * (2.0 if i == j else (1.0 if abs(i - j) == 1 else 0.0)) for j in range(dim)] for i in range(dim)]
+        scale = rng.choice([0.0, 1.0, 1.0, 1000.0]) if not small else rng.choice([0.0, 1.0])
         r = [scale * rng.uniform(-1, 1) if scale else 0.0 for _ in range(dim)]
-        eps = rng.choice([0.0, 0.1])
+        eps = rng.choice([0.0, 0.1]) if not small else 0.0
         g = rng.choice(["sq", "sin"]) if eps else "none"
         mode = rng.random()
         regular, singular = True, False
@@ -83,6 +89,15 @@ def polys(rng, n):
         deg = rng.randint(1, 8)
         roots = []
         tries = 0
+        flat = rng.random() < 0.2
+        if flat:
+            # many simple real roots a few tenths apart: the polynomial is flat at its roots (|p'| of 1e-3..1e-1), so a
+            # small residual does not mean a point close to a root
+            cx = False
+            deg = rng.randint(6, 8)
+            gap = rng.uniform(0.2, 0.3)
+            x0 = rng.uniform(-1.0, 0.0)
+            roots = [complex(x0 + gap * q, 0.0) for q in range(deg)]
         while len(roots) < deg and tries < 10000:
             tries += 1
             z = complex(rng.uniform(-3, 3), rng.uniform(-3, 3) if cx else 0.0)
@@ -104,6 +119,8 @@ def polys(rng, n):
         sep = min([abs(target - w) for w in roots if w != target] or [2.0])
         method = rng.choice(["newton_polynomial", "muller_polynomial"])
         tol = 10.0 ** (-rng.uniform(4, 10))
+        if flat:
+            tol = 10.0 ** (-rng.uniform(4, 6))
         def near(f):
             ang = rng.uniform(0, 2 * math.pi)
             d = f * sep * rng.random()
@@ -125,7 +142,8 @@ def polys(rng, n):
                 start = [target + 0.3 * sep, target + 0.2 * sep, target + 0.1 * sep]
         cz = lambda z: c11.cz(z.real, z.imag)
         cases.append({"method": method, "dim": 1, "cx": cx, "coefs": [cz(c) for c in coefs], "start": [cz(s) for s in start],
-                      "root": cz(target), "tol": fp(tol), "n_max": 500, "budget": 0, "regular": regular, "singular": False})
+                      "root": cz(target), "roots": [cz(w) for w in roots], "tol": fp(tol), "n_max": 500, "budget": 0,
+                      "regular": regular, "singular": False})
     return cases
 
 
